@@ -142,6 +142,7 @@ ERR_CLASSES = [
     (r"could not find id in path", "id-helper-missing"),
     (r'parse "%": invalid URL escape', "internal-service-url-queried"),
     (r"received null for required field", "null-for-required-field"),
+    (r"Cannot query field", "field-unknown-to-the-service"),
     (r"fake service rejects the request", "sub-request-rejected-by-service"),
     (r"fake service: variables rejected", "sub-request-variables-rejected-by-service"),
     (r"root value of result chunk was not", "result-shape-confusion"),
@@ -154,7 +155,7 @@ def err_class(msg):
     for pat, name in ERR_CLASSES:
         if re.search(pat, msg):
             return name
-    return "other:" + re.sub(r'"[^"]*"|\d+', "#", msg)[:60]
+    return "other:" + re.sub(r"\s+", " ", re.sub(r'"[^"]*"|\d+', "#", msg)).strip()[:60]
 
 
 def symptom(ev, expected):
